@@ -20,6 +20,54 @@ def cases_for(ctx, n):
     return cases
 
 
+def rand_fiber(rng, nc, pz, pabs):
+    return {"k": "F", "e": [[c, {"k": "L", "v": 0 if rng.random() < pz else rng.randint(1, 3)}] for c in range(nc) if rng.random() >= pabs]}
+
+
+def has_explicit_default(t, d=0):
+    return any(p["v"] == d for _, p in t["e"])
+
+
+def project_cases(ctx, n):
+    """loop nests over a coordinate projection (convolution-style index arithmetic), every (rank, type) traced"""
+    rng = ctx.rng
+    cases = []
+    while len(cases) < n:
+        nc = rng.choice([3, 4, 6])
+        iw = rand_fiber(rng, nc, rng.choice([0, 0.25]), rng.choice([0.2, 0.5]))
+        outer = rng.choice([0, 1, 1])
+        fs = rand_fiber(rng, 3, 0.15, 0.3) if outer else {"k": "F", "e": []}
+        a = rng.choice([1, 1, 2, -1])
+        cs = rng.choice([-1, 0, 1]) if outer else 0
+        b = rng.randint(0, 3) + (2 * nc if a < 0 else 0)
+        mode = rng.choice(["dst", "dst", "src"])
+        hasiv = rng.choice([0, 1])
+        lo = rng.randint(0, nc)
+        iv = [lo, lo + rng.randint(0, nc)]
+        svals = [c for c, _ in fs["e"]] if outer else [0]
+        if mode == "src" and hasiv:
+            # the ticking source must run to its end (a projection that stops early abandons the source's iteration: out of scope)
+            top = max([a * c + b + cs * s for c, _ in iw["e"] for s in svals] + [0])
+            iv[1] = top + 1 + rng.randint(0, 2)
+        sp = -1
+        if a > 0 and hasiv and iw["e"] and rng.random() < 0.3:
+            ok = [k for k in range(len(iw["e"])) if k == 0 or all(iw["e"][k - 1][0] < iv[0] and a * iw["e"][k - 1][0] + b + cs * s < iv[0] for s in svals)]
+            sp = rng.choice(ok)
+        cases.append({"outer": outer, "fs": fs, "iw": iw, "a": a, "b": b, "cs": cs, "mode": mode, "hasiv": hasiv, "iv": iv, "sp": sp, "dflt": 0, "shape": nc})
+    return cases
+
+
+def project_where(c):
+    w = []
+    if c["a"] < 0:
+        w.append("reversed")
+    if has_explicit_default(c["iw"]):
+        w.append("explicit-zeros")
+    if c["sp"] > 0:
+        w.append("start-pos")
+    return "+".join(w) or "canonical"
+
+
 def run(ctx):
     cfg = tlc.write_cfg("MC_Metrics_c16.cfg", f"CONSTANTS\n MAXEV = {7 if ctx.quick else 9}\nINIT Init\nNEXT Next\nINVARIANT Isolated\nCHECK_DEADLOCK FALSE\n")
     r = tlc.model_check("MC_Metrics.tla", cfg, name="c16m", workers=8)
@@ -35,12 +83,17 @@ def run(ctx):
     res = {"design": design, "states": r["stats"]["distinct"] + rc["stats"]["distinct"], "transitions": r["stats"]["generated"] + rc["stats"]["generated"], "exhaustive": False,
            "rule": "a case is one kernel of the C06 family (all shapes and loop orders, tiled ones included, operands with explicit zeros and empty fibers) run four times with "
                    "every (rank, trace type) registered: flush thresholds default / 2 / 3 and consumable traces; every CSV file is consumed row by row against the loop-nest "
-                   "and two-finger machines: header, one row per traced access in order, stamps sorted (strictly for iter), point, position; evaluations = sessions",
-           "assumptions": ["exact stamp values are not pinned (the statement orders them)", "project_i traces are not exercised",
+                   "and two-finger machines (project_i: against the projection slice of FTTraverse, three runs per nest): header, one row per traced access in order, stamps sorted (strictly for iter), point, position; evaluations = sessions",
+           "assumptions": ["exact stamp values are not pinned (the statement orders them)", "project_i traces: one- and two-level nests over an affine projection (direct, reversed, interval, saved position), the projected fiber or the ticking source as loop operand; a projection that stops a ticking source early is out of scope",
                            "intersect_i rows are judged for two-operand non-output levels, populate_i rows for single-operand output levels; destination-side rows for order and completeness"],
            "scope": {"cases": len(cases)}}
     part["evaluations"] = 4 * len(cases)
-    return family.merge(res, part)
+    pcases = project_cases(ctx, 300 if ctx.quick else 6000)
+    part2 = family.run_family(ctx, "C16", pcases, "harness.exec_projtrace", "ProjRowsTrace.tla", "ProjRowsTrace.cfg",
+                              op_of=lambda c, lg, st: "project:" + c["mode"], where_of=lambda c, lg, st: project_where(c), name="proj")
+    part2["evaluations"] = 3 * len(pcases)
+    res["scope"]["project_cases"] = len(pcases)
+    return family.merge(family.merge(res, part), part2)
 
 
 def has_zero(ops):
@@ -50,4 +103,6 @@ def has_zero(ops):
 
 
 def replay(ctx, rec):
+    if "sessions" not in rec["behaviour"]:
+        return family.replay_family(ctx, "C16", rec, "harness.exec_projtrace", "ProjRowsTrace.tla", "ProjRowsTrace.cfg")
     return family.replay_family(ctx, "C16", rec, "harness.exec_metrics", "RowsTrace.tla", "RowsTrace.cfg")
